@@ -17,6 +17,20 @@ def license_text():
     return _lic
 
 
+def equal_size_piece(seed, dict_bytes=b"", level=3):
+    """A piece whose zstd frame is exactly as long as the piece itself (stored size == uncompressed size although it IS compressed):
+    a few hundred noise bytes followed by a run of zeros, the run length searched."""
+    import zckref
+    r = random.Random("eqsize/%s" % seed)
+    for _ in range(200):
+        noise = r.randbytes(r.randrange(40, 400))
+        for zeros in range(1, 80):
+            pc = noise + bytes(zeros)
+            if len(zckref.zstd_compress(pc, dict_bytes, level)) == len(pc):
+                return pc
+    return None
+
+
 def content(kind, size, seed=0):
     """kind: empty one const:<b> random text periodic:<p> license mixed zeros"""
     r = random.Random("content/%s/%s/%s" % (kind, size, seed))
